@@ -121,18 +121,18 @@ theorem site_judged_at_attested_time (H : Nat → Nat) (g : Bool) (a : ArtX) (cs
 
 /-! ## 2. Attaching -/
 
-/-- **attach_site_genuine** — every attach site that checks (all but VSIX): whatever the time-stamper is (the client,
-the limiter, the cache with any content, a chain of them), a signature that comes out carries exactly the token the
-time-stamper returned for the request made with THIS signature value, and that token covers this value and is
-correctly signed. -/
+/-- **attach_site_genuine** — every attach site (CMS with either attribute OID, ClickOnce manifest, VSIX since fix
+a163120, cosign): whatever the time-stamper is (the client, the limiter, the cache with any content, a chain of
+them), a signature that comes out carries exactly the token the time-stamper returned for the request made with THIS
+signature value, and that token covers this value and is correctly signed. -/
 theorem attach_site_genuine (H : Nat → Nat) (g : Bool) (site : Site) (ed leaf : Nat) (o : Outcome) (a : ArtX)
-    (hs : site ≠ .unsupported) (hc : site.selfChecks = true) (h : (signSite H g site ed leaf (some o)).1 = .ok a) :
+    (hs : site ≠ .unsupported) (h : (signSite H g site ed leaf (some o)).1 = .ok a) :
     ∃ s t, o.res = .ok (s, t) ∧ a = ⟨site, ed, leaf, some t⟩ ∧ Covers H t ed := by
   have hshape : ∀ s t, o.res = .ok (s, t) → attachX H g site ed leaf t = .ok a →
       a = ⟨site, ed, leaf, some t⟩ ∧ Covers H t ed := by
     intro s t _ hat
     unfold attachX at hat
-    simp only [hc, if_true] at hat
+    simp only at hat
     cases hv : verifyX H g ⟨site, ed, leaf, some t⟩ with
     | ok cs =>
       simp only [hv] at hat
@@ -166,49 +166,85 @@ theorem attach_site_cms_genuine (H : Nat → Nat) (g : Bool) (auth : Bool) (ed l
     (h : (signSite H g (if auth then .cmsAuth else .cmsPlain) ed leaf (some o)).1 = .ok a) :
     ∃ s t, o.res = .ok (s, t) ∧ a = ⟨if auth then .cmsAuth else .cmsPlain, ed, leaf, some t⟩ ∧ Covers H t ed := by
   cases auth
-  · exact attach_site_genuine H g .cmsPlain ed leaf o a (by simp) rfl h
-  · exact attach_site_genuine H g .cmsAuth ed leaf o a (by simp) rfl h
+  · exact attach_site_genuine H g .cmsPlain ed leaf o a (by simp) h
+  · exact attach_site_genuine H g .cmsAuth ed leaf o a (by simp) h
 
 /-- ClickOnce manifests: `SignedManifest.AddTimestamp` → `VerifyTimestamp` (RFC 3161 or legacy, by content type) on the
 raw SignatureValue of the authenticode signature, before the document is replaced -/
 theorem attach_site_manifest_genuine (H : Nat → Nat) (g : Bool) (ed leaf : Nat) (o : Outcome) (a : ArtX)
     (h : (signSite H g .manifest ed leaf (some o)).1 = .ok a) :
     ∃ s t, o.res = .ok (s, t) ∧ a = ⟨.manifest, ed, leaf, some t⟩ ∧ Covers H t ed :=
-  attach_site_genuine H g .manifest ed leaf o a (by simp) rfl h
+  attach_site_genuine H g .manifest ed leaf o a (by simp) h
 
 /-- cosign: `pkcs9.Verify(timestamp, rawSignature)` before the annotation is written -/
 theorem attach_site_cosign_genuine (H : Nat → Nat) (g : Bool) (ed leaf : Nat) (o : Outcome) (a : ArtX)
     (h : (signSite H g .cosign ed leaf (some o)).1 = .ok a) :
     ∃ s t, o.res = .ok (s, t) ∧ a = ⟨.cosign, ed, leaf, some t⟩ ∧ Covers H t ed :=
-  attach_site_genuine H g .cosign ed leaf o a (by simp) rfl h
+  attach_site_genuine H g .cosign ed leaf o a (by simp) h
 
 /-- **cached_token_still_checked_sites** — the composition asked for: whatever the memcache holds under the request's
-key (a token for another signature, another authority's token, anything that parses), whatever the limiter does, a
-checking site does not let a signature out unless the token it got covers this signature value -/
+key (a token for another signature, another authority's token, anything that parses), whatever the limiter does, no
+attach site lets a signature out unless the token it got covers this signature value -/
 theorem cached_token_still_checked_sites (D : Nat → List Char) (H : Nat → Nat) (c : Cfg) (conf : TsConf) (name : Name)
     (memcache up : Bool) (sh : Shared) (now : Nat) (ctx : Ctx) (world : Url → Wire) (site : Site) (rfcFlag : Bool)
-    (hash nonce ed leaf : Nat) (a : ArtX) (hs : site ≠ .unsupported) (hc : site.selfChecks = true)
+    (hash nonce ed leaf : Nat) (a : ArtX) (hs : site ≠ .unsupported)
     (h : (signSite H c.guards site ed leaf
       (some (stamperCall D H c conf name memcache up sh now ctx world (site.legacy rfcFlag) hash nonce ed).1.outcome)).1 = .ok a) :
     ∃ t, a.token = some t ∧ a.sigValue = ed ∧ Covers H t ed := by
-  obtain ⟨s, t, _, ha, hcov⟩ := attach_site_genuine H c.guards site ed leaf _ a hs hc h
+  obtain ⟨s, t, _, ha, hcov⟩ := attach_site_genuine H c.guards site ed leaf _ a hs h
   exact ⟨t, by rw [ha], by rw [ha], hcov⟩
 
 /-! ## 3. The VSIX site -/
 
-/-- the full-strength statement for the VSIX signer (signers/vsix makeSignature) -/
-def attach_site_vsix_genuine_full : Prop :=
-  ∀ (H : Nat → Nat) (g : Bool) (ed leaf : Nat) (o : Outcome) (a : ArtX),
-    (signSite H g .vsix ed leaf (some o)).1 = .ok a →
-    ∃ s t, o.res = .ok (s, t) ∧ a = ⟨.vsix, ed, leaf, some t⟩ ∧ Covers H t ed
+/-- **attach_site_vsix_genuine** — signers/vsix `makeSignature` (current code, fix a163120: `pkcs9.Verify(tst,
+SignatureValue)` before the token is embedded): the statement that was open as `attach_site_vsix_genuine_full` -/
+theorem attach_site_vsix_genuine (H : Nat → Nat) (g : Bool) (ed leaf : Nat) (o : Outcome) (a : ArtX)
+    (h : (signSite H g .vsix ed leaf (some o)).1 = .ok a) :
+    ∃ s t, o.res = .ok (s, t) ∧ a = ⟨.vsix, ed, leaf, some t⟩ ∧ Covers H t ed :=
+  attach_site_genuine H g .vsix ed leaf o a (by simp) h
 
 /-- a genuine token of the trusted authority, issued for signature value 777 -/
 def foreignTok : Token := ⟨88, true, 1, true, .tst ⟨some 99, 1777, true, some 0⟩, none, 1, true⟩
 
-/-- **attach_site_vsix_unchecked** (finding F52) — it is false: `makeSignature` embeds whatever `Timestamp` returns.  Witness:
-the cache answers the request for signature value 100 with a token issued for 777; signing succeeds and the package
-carries that token. -/
-theorem attach_site_vsix_unchecked : ¬ attach_site_vsix_genuine_full := by
+/-- regression witness of F52 on the current code: a planted entry under the request's memcache key is refused at
+signing time by the VSIX site like by every other one; no authority is asked (the cache answered) -/
+theorem vsix_foreign_cache_entry_refused :
+    let D : Nat → List Char := fun n => List.replicate 61 'x' ++ Nat.toDigits 10 (n % 1000)
+    let key := cacheKey D ⟨false, [], 5, 100⟩
+    let good : Token := ⟨1, true, 1, true, .tst ⟨some 7, 1100, true, some 0⟩, none, 1, true⟩
+    let out := signOp D (· + 1000) Cfg.fixed (some ⟨[0], [], []⟩) ⟨true, []⟩ "" true true ⟨[(key, .tok foreignTok)], none⟩ 0
+      Ctx.background (fun _ => .http 200 (.der 0 good false)) .vsix true 5 7 100 10
+    out.1 = .err "selfcheck:imprint" ∧ out.2.contacted = [] := by
+  decide
+
+example :
+    let D : Nat → List Char := fun n => List.replicate 61 'x' ++ Nat.toDigits 10 (n % 1000)
+    let key := cacheKey D ⟨false, [], 5, 100⟩
+    (signOp D (· + 1000) Cfg.fixed (some ⟨[0], [], []⟩) ⟨true, []⟩ "" true true ⟨[(key, .tok foreignTok)], none⟩ 0
+      Ctx.background (fun _ => .reset) .cmsAuth true 5 7 100 10).1 = .err "selfcheck:imprint" := by
+  decide
+
+/-! ### the code before fix a163120 (`signSiteOrig`, `signOpOrig`): finding F52 -/
+
+/-- the unrepaired signer modules differ from the current ones at the VSIX site only -/
+theorem signSiteOrig_eq (H : Nat → Nat) (g : Bool) (site : Site) (ed leaf : Nat) (ts : Option Outcome) (hs : site ≠ .vsix) :
+    signSiteOrig H g site ed leaf ts = signSite H g site ed leaf ts := by
+  cases site <;> first | exact absurd rfl hs | skip
+  all_goals
+    cases ts with
+    | none => rfl
+    | some o => simp only [signSiteOrig, signSite, attachXOrig, Site.selfChecksOrig, if_true]
+
+/-- the full-strength statement for the VSIX signer as it was before the repair -/
+def attach_site_vsix_genuine_full_orig : Prop :=
+  ∀ (H : Nat → Nat) (g : Bool) (ed leaf : Nat) (o : Outcome) (a : ArtX),
+    (signSiteOrig H g .vsix ed leaf (some o)).1 = .ok a →
+    ∃ s t, o.res = .ok (s, t) ∧ a = ⟨.vsix, ed, leaf, some t⟩ ∧ Covers H t ed
+
+/-- **attach_site_vsix_unchecked_orig** (finding F52, fixed by a163120) — it was false: `makeSignature` embedded whatever
+`Timestamp` returned.  Witness: the cache answers the request for signature value 100 with a token issued for 777;
+signing succeeds and the package carries that token. -/
+theorem attach_site_vsix_unchecked_orig : ¬ attach_site_vsix_genuine_full_orig := by
   intro h
   obtain ⟨s, t, hres, _, hcov⟩ := h (· + 1000) true 100 10 ⟨.ok (.cache, foreignTok), [], []⟩
     ⟨.vsix, 100, 10, some foreignTok⟩ (by decide)
@@ -222,25 +258,18 @@ theorem attach_site_vsix_unchecked : ¬ attach_site_vsix_genuine_full := by
     simp at hi
   · simp [foreignTok] at hd
 
-/-- the same through the real pipeline: a planted entry under the request's memcache key reaches the package although
-every authority would have answered correctly (none is asked) -/
-theorem vsix_unchecked_through_cache :
+/-- the same through the whole pipeline of the unrepaired tree: a planted entry under the request's memcache key
+reached the package although every authority would have answered correctly (none was asked), and the package did
+not verify -/
+theorem vsix_unchecked_through_cache_orig :
     let D : Nat → List Char := fun n => List.replicate 61 'x' ++ Nat.toDigits 10 (n % 1000)
     let conf : TsConf := ⟨[0], [], []⟩
     let key := cacheKey D ⟨false, [], 5, 100⟩
     let good : Token := ⟨1, true, 1, true, .tst ⟨some 7, 1100, true, some 0⟩, none, 1, true⟩
-    let out := signOp D (· + 1000) Cfg.fixed (some conf) ⟨true, []⟩ "" true true ⟨[(key, .tok foreignTok)], none⟩ 0
+    let out := signOpOrig D (· + 1000) Cfg.fixed (some conf) ⟨true, []⟩ "" true true ⟨[(key, .tok foreignTok)], none⟩ 0
       Ctx.background (fun _ => .http 200 (.der 0 good false)) .vsix true 5 7 100 10
     out.1 = .ok ⟨.vsix, 100, 10, some foreignTok⟩ ∧ out.2.contacted = [] ∧
     verifyX (· + 1000) true ⟨.vsix, 100, 10, some foreignTok⟩ = .err "imprint" := by
-  decide
-
-/-- … while the checking sites refuse the same entry at signing time -/
-example :
-    let D : Nat → List Char := fun n => List.replicate 61 'x' ++ Nat.toDigits 10 (n % 1000)
-    let key := cacheKey D ⟨false, [], 5, 100⟩
-    (signOp D (· + 1000) Cfg.fixed (some ⟨[0], [], []⟩) ⟨true, []⟩ "" true true ⟨[(key, .tok foreignTok)], none⟩ 0
-      Ctx.background (fun _ => .reset) .cmsAuth true 5 7 100 10).1 = .err "selfcheck:imprint" := by
   decide
 
 /-- **vsix_foreign_token_rejected_by_verifier** — such a package never verifies: relic's `checkTimestamp` (and any
@@ -305,17 +334,24 @@ theorem clientTs_ok_accepted (c : Cfg) (conf : TsConf) (name : Name) (r : Req) (
         obtain ⟨u, hu⟩ := this
         exact ⟨u, by rw [hu]; exact hok⟩
 
-/-- **attach_site_vsix_genuine_partial** — what does hold for VSIX: when the time-stamper is the client itself, with or
-without the rate limiter but WITHOUT a memcache, the embedded token is one an authority of the selected pool sent in a
-reply the client accepted for this very request (`accept_iff`), hence it covers this SignatureValue.  Missing for the
-full statement: a check of the token at the site (or in the cache). -/
-theorem attach_site_vsix_genuine_partial (D : Nat → List Char) (H : Nat → Nat) (c : Cfg) (conf : TsConf) (name : Name)
+/-- **attach_site_vsix_genuine_partial_orig** — what did hold for the unrepaired VSIX signer: when the time-stamper is the
+client itself, with or without the rate limiter but WITHOUT a memcache, the embedded token is one an authority of the
+selected pool sent in a reply the client accepted for this very request (`accept_iff`), hence it covers this
+SignatureValue.  What was missing for the full statement, a check of the token at the site, is what a163120 added. -/
+theorem attach_site_vsix_genuine_partial_orig (D : Nat → List Char) (H : Nat → Nat) (c : Cfg) (conf : TsConf) (name : Name)
     (up : Bool) (sh : Shared) (now : Nat) (ctx : Ctx) (world : Url → Wire) (hash nonce ed leaf : Nat) (a : ArtX)
     (halg : c.algChecked = true)
-    (h : (signSite H c.guards .vsix ed leaf
+    (h : (signSiteOrig H c.guards .vsix ed leaf
       (some (stamperCall D H c conf name false up sh now ctx world false hash nonce ed).1.outcome)).1 = .ok a) :
     ∃ t u, a = ⟨.vsix, ed, leaf, some t⟩ ∧ Genuine c ⟨false, nonce, H ed⟩ (world u) t ∧ Covers H t ed := by
-  obtain ⟨s, t, hres, ha⟩ := signSite_ok_token (site := .vsix) (by simp) h
+  obtain ⟨s, t, hres, ha⟩ : ∃ s t, (stamperCall D H c conf name false up sh now ctx world false hash nonce ed).1.outcome.res = .ok (s, t) ∧
+      a = ⟨.vsix, ed, leaf, some t⟩ := by
+    simp only [signSiteOrig, attachXOrig, Site.selfChecksOrig] at h
+    cases ho : (stamperCall D H c conf name false up sh now ctx world false hash nonce ed).1.outcome.res with
+    | ok p => obtain ⟨s, t⟩ := p; simp only [ho] at h; exact ⟨s, t, rfl, by simpa using h.symm⟩
+    | err e => simp [ho] at h
+    | panic p => simp [ho] at h
+    | diverge => simp [ho] at h
   -- the outcome is the client's, possibly delayed
   have hcl : ∃ pre, (clientTs c conf name ⟨false, nonce, H ed⟩ pre world).res = .ok (s, t) := by
     simp only [stamperCall, Bool.false_eq_true, if_false] at hres
@@ -335,7 +371,7 @@ theorem attach_site_vsix_genuine_partial (D : Nat → List Char) (H : Nat → Na
   obtain ⟨st, i, _, _, hcont, _, hmd, hsig, _, himp, hal⟩ := hgen
   exact ⟨hsig, hmd, Or.inl ⟨i, hcont, himp, hal halg⟩⟩
 
-/-- non-vacuity: VSIX, no memcache, limiter present (bucket empty: the call waits one period), first authority down,
+/-- non-vacuity (current code): VSIX, no memcache, limiter present (bucket empty: the call waits one period), first authority down,
 second one genuine: the package carries the second one's token and verifies -/
 example :
     let good : Token := ⟨2, true, 1, true, .tst ⟨some 7, 1100, true, some (-20)⟩, none, 1, true⟩
@@ -368,7 +404,7 @@ theorem cms_site_agrees_with_flow (H : Nat → Nat) (g : Bool) (ed leaf : Nat) (
     (attachX H g .cmsAuth ed leaf t = .ok ⟨.cmsAuth, ed, leaf, some t⟩ ↔
       attachAndCheck H g .p7ac ed leaf t = .ok ⟨ed, leaf, .spcToken t⟩) := by
   constructor <;>
-  · simp only [attachX, Site.selfChecks, if_true, verifyX, attachAndCheck, verifyAttach, mkAttach]
+  · simp only [attachX, verifyX, attachAndCheck, verifyAttach, mkAttach]
     cases verifyRfcToken H g t ed <;> simp [liftCs]
 
 /-- **site_attribute_oid** — which attribute carries the token: the Authenticode formats (pe-coff, msi, cab, ps, xap,
